@@ -6,7 +6,7 @@ import ast
 from sa.engine.cfg import is_shield_with
 from sa.engine.facts import Bad, F
 from sa.engine.pattern import P, u, dump
-from sa.engine.source import norm, own_walk
+from sa.engine.source import norm, own_walk, stmt_of
 from .common import A, lexically_inside, waiter_guard
 from .c02 import routing
 
@@ -130,7 +130,8 @@ def check(ctx):
     ctx.need("R07-c", started, "`self._future.set_result(value)`", len(sr), 1)
     rr = ctx.sites(started, "raise RuntimeError($*A) from None") + ctx.sites(started, "raise RuntimeError($*A)")
     if ctx.need("R07-c", started, "second started() raises RuntimeError", len(rr), 1):
-        ctx.require_at("R07-c", started, rr[0][0], [[("@exc", "InvalidStateError"), "not self._future.cancelled()"]],
+        ctx.require_at("R07-c", started, rr[0][0], [[("@exc", "InvalidStateError"), "not self._future.cancelled()"],
+                                                    ["self._future.done()", "not self._future.cancelled()"]],      # (EAFP / LBYL)
                        instance="second started() is an error unless the starter was cancelled")
 
     def step_c(st, e, c):
@@ -138,14 +139,14 @@ def check(ctx):
         if e == "set":
             return (True, rp)
         if e == "reparent" and not c.is_exc:
-            if not sr_:
+            if not sr_ and ("self._future.done()", True) not in c.facts_before:      # (already resolved: nothing left to signal)
                 return Bad("the child is re-parented before readiness was signalled")
             return (sr_, True)
         return st
 
     def at_exit_c(kind, st, facts):
         sr_, rp = st
-        if kind == "return" and not (sr_ and rp):
+        if kind == "return" and not ((sr_ or ("self._future.done()", True) in facts) and rp):
             return f"started() returns without {'signalling readiness' if not sr_ else 're-parenting the child'}"
         return None
 
@@ -158,9 +159,12 @@ def check(ctx):
     if ctx.need("R07-d", done, "child failure before started() is delivered to the start() future", len(fx), 1):
         ctx.require_at("R07-d", done, fx[0][0], [[f"not {tsf} is None", f"not {tsf}.done()", f"not {x} is None"]],
                        instance="failure routed to the future only while it is still pending")
-    rt = ctx.sites(done, f"{tsf}.set_exception(RuntimeError($*A))")
+    # the RuntimeError for a child that merely returned: passed to set_exception directly, or bound to the outcome variable first
+    rt = [stmt_of(m_) for m_, _ in ctx.sites(done, "RuntimeError($*A)")]
+    rt = [r_ for r_ in rt if P(f"{tsf}.set_exception(RuntimeError($*A))").match(r_.value if isinstance(r_, ast.Expr) else r_) is not None
+          or (isinstance(r_, ast.Assign) and len(r_.targets) == 1 and u(r_.targets[0]) == x)]
     if ctx.need("R07-d", done, "a child that returns without started() fails start() with RuntimeError", len(rt), 1):
-        ctx.require_at("R07-d", done, rt[0][0], [[f"{x} is None", f"not {tsf} is None", f"not {tsf}.done()"]],
+        ctx.require_at("R07-d", done, rt[0], [[f"{x} is None", f"not {tsf} is None", f"not {tsf}.done()"]],
                        instance="RuntimeError only for a clean exit without started()")
 
     def step_d(st, e, c):
@@ -176,6 +180,10 @@ def check(ctx):
     def at_exit_d(kind, st, facts):
         if st[0] and st[1]:
             return "an outcome delivered to the start() future also fails/cancels the group (the group must not be cancelled on that account)"
+        if kind == "return" and not st[0] and not st[1] and F(f"{tsf} is None") not in facts and (f"{tsf}.done()", True) not in facts \
+                and (f"{tsf}.cancelled()", True) not in facts:        # (a cancelled future is done: the starter has gone)
+            return ("the done-callback returns with nothing delivered although start() may still be waiting for this child "
+                    "(a child that returns without calling started() must fail start() with RuntimeError)")
         return None
 
     ctx.paths("R07-d", done, [("fut", f"{tsf}.set_exception($E)"), ("append", "self._exceptions.append($E)"),
